@@ -94,6 +94,14 @@ class ModelTaps:
         from cobyqa.models import build_system
 
         out = self.out
+        # the recorded values are barrier-clipped: finite and within +-2^100 whatever the user functions returned
+        for nm, arr in (("objective", m.fun_val), ("inequality", m.cub_val), ("equality", m.ceq_val)):
+            arr = np.asarray(arr, float)
+            if arr.size and not np.all(np.abs(arr) <= e2e.BARRIER):  # (NaN fails the comparison as well)
+                bad = arr[~(np.abs(arr) <= e2e.BARRIER)]
+                out.fail("C12.e2e.clip", "after %s: a recorded %s value (%r) is not within the barrier +-2^100"
+                         % (kind, nm, float(bad.flat[0])))
+                break
         if kind == "reset":
             self.kappa, self.T, self.vmax, self.seen = 0.0, 0, 1.0, len(self.t.evals)
         self.vmax = max(self.vmax, float(np.max(np.abs(m.fun_val), initial=0.0)),
